@@ -615,7 +615,7 @@ func init() {
 			{Backing: "map", MinMergePct: 100, CachePersisted: true},
 		}
 		sp.Steps = []string{"M", "MA", "Pb", "Pe"}
-		sp.Roots = [][]string{{"B0", "M", "Pb", "Pe"}}
+		sp.Roots = [][]string{{"B0", "M", "Pb", "Pe"}, {"B2", "M", "Pb", "Pe"}}
 		sp.MaxR = 0
 		sp.Note = "oracle at every state without a call in flight: all three dirty gauges zero => store snapshot (or map lower level) == reference and a reopened copy of the directory == reference; converse: <=4 merger/persister alternations make the gauges zero"
 		sp.Check = func(w *World, path []string) []Violation {
